@@ -260,6 +260,10 @@ class Runner:
             if t.decode_errors:
                 res.setdefault('decode_errors', []).extend(t.decode_errors)
                 t.decode_errors = []
+        held = res.pop('_call_frames', None)
+        if held:
+            for idx, pk in held.items():
+                sent[idx] = list(pk) + sent.get(idx, [])
         res['sent'] = sent
         res['events'] = self.events[res['_ev0']:]
         del res['_ev0']
@@ -344,6 +348,8 @@ class Runner:
             elif kind == 'session_block':
                 res['ret'] = self._session_block(self.sid_of(op[1]), op[2],
                                                  op[3])
+            elif kind == 'call':
+                res.update(self._call(op))
             elif kind == 'is_connected':
                 res['ret'] = self.sio.manager.is_connected(
                     self.sid_of(op[1]), op[2])
@@ -381,6 +387,163 @@ class Runner:
                 d.autojoin = old
                 d.join()
 
+    def _call(self, op):
+        """['call', token, SID|None, ns, data, timeout, script, args, T]:
+        server.call() while transport T plays `script`:
+        ack | timeout | wrongid_then_ack | cdisc_timeout | lose_timeout |
+        ack_after_timeout | ack_other_ns."""
+        from engineio import packet as eio_packet
+        from .vtime import VirtualEvent, settle
+        _, token, to, ns, data, timeout, script, args, T = op
+        d = self.d
+        t = self.T.get(T)
+        kw = {'timeout': timeout}
+        if to is not None:
+            kw['to'] = self.resolve(to)
+        if ns is not None:
+            kw['namespace'] = ns
+        state = {'id': None}
+
+        def frames(ptype, nsp, pid, pdata):
+            if d.serializer == 'msgpack':
+                return [R.msgpack_encode(ptype, nsp, pid, pdata)]
+            text, atts = R.encode(ptype, nsp, pid, pdata)
+            return [text] + atts
+
+        def observe():
+            if t is None:
+                return
+            new = t.drain()
+            self._held.extend(new)
+            pk = [p for p in new
+                  if p['type'] in (R.EVENT, R.BINARY_EVENT)
+                  and p['data'] and p['data'][0] == 'tok%s' % token]
+            if len(pk) == 1:
+                state['id'] = pk[0]['id']
+                state['nsp'] = pk[0]['nsp']
+
+        def actions():
+            cid, nsp = state['id'], state.get('nsp')
+            if cid is None or not t.alive:
+                return []
+            if script == 'ack':
+                return [frames(R.ACK, nsp, cid, args)]
+            if script == 'wrongid_then_ack':
+                return [frames(R.ACK, nsp, cid + 7, ['wrong']),
+                        frames(R.ACK, nsp, cid, args)]
+            if script == 'ack_other_ns':
+                return [frames(R.ACK, '/zz' if nsp != '/zz' else '/', cid,
+                               args)]
+            if script == 'cdisc_timeout':
+                return [frames(R.DISCONNECT, nsp, None, None),
+                        frames(R.ACK, nsp, cid, args)]
+            if script == 'lose_timeout':
+                return ['lose']
+            return []
+        self._held = []
+        out = {}
+        if d.is_async:
+            loop = d.loop
+
+            async def feed(a):
+                if a == 'lose':
+                    await t.socket.close(
+                        wait=False, abort=True,
+                        reason=d.eio.reason.TRANSPORT_ERROR)
+                    d._reap(t)
+                    return
+                for f in a:
+                    await t.socket.receive(eio_packet.Packet(
+                        eio_packet.MESSAGE, f))
+
+            async def go():
+                task = asyncio.ensure_future(self.sio.call(
+                    'tok%s' % token, data, **kw))
+                await settle(loop, horizon=0)
+                observe()
+                for a in actions():
+                    await feed(a)
+                    await settle(loop, horizon=0)
+                if not task.done():
+                    await asyncio.sleep(timeout + 0.001)
+                    await settle(loop, horizon=0)
+                    if not task.done():
+                        task.cancel()
+                        return {'exc': 'NeverReturned'}
+                try:
+                    r = {'ret': await task}
+                except Injected:
+                    raise
+                except Exception as e:
+                    r = {'exc': type(e).__name__, 'exc_msg': str(e)[:200],
+                         'exc_tb': traceback.format_exc()[-2500:]}
+                if script == 'ack_after_timeout' and state['id'] is not None \
+                        and t.alive:
+                    await feed(frames(R.ACK, state['nsp'], state['id'],
+                                      args))
+                    await settle(loop, horizon=0)
+                return r
+            import sys as _sys
+            orig_wait_for = asyncio.wait_for
+            waited = []
+
+            async def wait_for(fut, tmo, **k):
+                try:
+                    name = _sys._getframe(1).f_code.co_name
+                except Exception:
+                    name = ''
+                if name == 'call':
+                    waited.append(tmo)
+                return await orig_wait_for(fut, tmo, **k)
+            asyncio.wait_for = wait_for
+            try:
+                out = d.run(go())
+            finally:
+                asyncio.wait_for = orig_wait_for
+            out['waited'] = waited
+        else:
+            def feed(a):
+                if a == 'lose':
+                    t.socket.close(wait=False, abort=True,
+                                   reason=d.eio.reason.TRANSPORT_ERROR)
+                    d._reap(t)
+                    return
+                for f in a:
+                    t.socket.receive(eio_packet.Packet(
+                        eio_packet.MESSAGE, f))
+
+            def on_wait(ev, tmo):
+                out.setdefault('waits', []).append(tmo)
+                observe()
+                for a in actions():
+                    feed(a)
+            orig_create = d.eio.create_event
+            d.eio.create_event = lambda *a, **k: VirtualEvent(
+                on_wait=on_wait)
+            old_join = d.autojoin
+            d.autojoin = False
+            try:
+                try:
+                    out['ret'] = self.sio.call('tok%s' % token, data, **kw)
+                except Injected:
+                    raise
+                except Exception as e:
+                    out.update({'exc': type(e).__name__,
+                                'exc_msg': str(e)[:200],
+                                'exc_tb': traceback.format_exc()[-2500:]})
+                if script == 'ack_after_timeout' and state['id'] is not None \
+                        and t.alive:
+                    feed(frames(R.ACK, state['nsp'], state['id'], args))
+            finally:
+                d.eio.create_event = orig_create
+                d.autojoin = old_join
+                d.join()
+            out['waited'] = out.pop('waits', [])
+        # the frames consumed while observing belong to this step's record
+        if t is not None and self._held:
+            out['_call_frames'] = {T: list(self._held)}
+        return out
+
     def _session_block(self, sid, ns, updates):
         d = self.d
         if d.is_async:
@@ -416,6 +579,11 @@ def normalise(results, runner):
             names[s] = 'S%d' % (len(names) + 1)
         return names[s]
     known = set(runner.all_sids)
+    for r in results:
+        for ev in r.get('events', []):
+            # sids of refused connections are only ever seen by handlers
+            if ev[0] == 'handler' and isinstance(ev[4], str):
+                known.add(ev[4])
     eio_names = {t.eio_sid: 'T%d' % idx for idx, t in runner.T.items()}
 
     def walk(x):
@@ -425,7 +593,9 @@ def normalise(results, runner):
             if x in eio_names:
                 return eio_names[x]
             return x
-        if isinstance(x, (list, tuple)):
+        if isinstance(x, tuple):
+            return {'$tuple': [walk(i) for i in x]}
+        if isinstance(x, list):
             return [walk(i) for i in x]
         if isinstance(x, dict):
             return {walk(k) if isinstance(k, str) else k: walk(v)
@@ -453,6 +623,8 @@ def normalise(results, runner):
         e['events'] = evs
         if 'ret' in r:
             e['ret'] = walk(r['ret'])
+        if 'waited' in r:
+            e['waited'] = r['waited']
         if 'exc' in r:
             e['exc'] = r['exc']
         if 'errors' in r:
